@@ -1,5 +1,7 @@
 package c17
 
+import "verifharness/pt"
+
 // knownParsePredicates: input classes of sub-check (a) listed as open findings in
 // /verif/known_findings.jsonl. Each predicate is stated over the input only.
 type knownParse struct {
@@ -9,3 +11,20 @@ type knownParse struct {
 }
 
 var knownParsePredicates = []knownParse{}
+
+// knownExecFinding: query classes of sub-check (b) listed as open findings.
+type knownExec struct {
+	id    string
+	match func(q execQuery) bool
+}
+
+var knownExecPredicates = []knownExec{}
+
+func knownExecFinding(q execQuery) string {
+	for _, k := range knownExecPredicates {
+		if pt.KnownFindingOpen(k.id) && k.match(q) {
+			return k.id
+		}
+	}
+	return ""
+}
